@@ -34,6 +34,7 @@ func runC03(l *core.Ledger) {
 	l.Rule("C03-F3", "who-may-call client SendMsg = {sendMsg} (one site, not in a loop); who-may-call sendMsg = {sender}, one site, inside the dequeue loop, not in a go statement, at most once per dequeued request")
 	l.Rule("C03-F4", "NodeStream: every path from the go-handler statement to the next RecvMsg acquires the per-connection mutex; one server RecvMsg site, in NodeStream's own goroutine")
 	l.Rule("C03-F5", "exactly one handler start per loop iteration, given the message that this iteration's RecvMsg filled, which is freshly allocated per iteration")
+	l.Rule("C03-F7", "the queued request carries the caller's own context parameter and message (C06-P1 re-run): the library never cancels a queued request on the caller's behalf")
 	l.Rule("C03-F6", "bijection between descriptor methods, registered handler names and stub Method strings (C17-B1 re-run)")
 
 	eps := findEntryPoints(l, r, "C03-F1")
@@ -65,6 +66,15 @@ func runC03(l *core.Ledger) {
 	c03F2F3(l, r)
 	c03Server(l, r)
 	c03F6(l)
+	// F7: what is queued is the caller's own request: its context is the
+	// caller's context parameter itself (a context the library derives and
+	// cancels on return makes the sender drop requests still queued for
+	// stragglers) and its payload is the caller's / per-node message
+	l.With(map[string]string{"C06-P1": "C03-F7"}, func() {
+		for _, ep := range eps {
+			c06P1(l, ep)
+		}
+	})
 }
 
 func c03F1(l *core.Ledger, ep *entryPoint) {
